@@ -147,6 +147,19 @@ pub fn check_radius(c: &RadCase, rec: &mut Rec) -> Result<(), Violation> {
   for &(fr, az) in &c.wit {
     pts.push(geom::point_at(lon, lat, r * fr, az));
   }
+  // the cells next to the 8 three-cell points, on the polar-cap side of the base-cell borders: the
+  // largest centre-to-vertex distances of a depth; used only if their centre is within the radius
+  {
+    let e = 0.2 / n as f64;
+    let tl = geom::transition_latitude();
+    for q in 0..4 {
+      for s in [-1.0f64, 1.0] {
+        for side in [-1.0f64, 1.0] {
+          pts.push(((q as f64 * geom::HALF_PI + side * e).rem_euclid(geom::TWO_PI), s * (tl + e)));
+        }
+      }
+    }
+  }
   for (wl, wb) in pts {
     let h = match catch(|| nested::hash(d, wl, wb)) {
       Ok(h) => h,
